@@ -54,6 +54,16 @@ def _base(ctx, n, kind):
         if n > 1:
             c.bs(2, reflectivity=ctx.real("rb", 0, 1))
         return c
+    if kind in ("direct-herald-first", "direct-herald-middle", "direct-herald-last"):
+        # heralds declared on the base circuit itself (not inside an added gate): the visible
+        # modes are no longer 0..2n-1
+        hm = {"direct-herald-first": 0, "direct-herald-middle": 1 if n == 1 else 2, "direct-herald-last": 2 * n}[kind]
+        c = lw.Circuit(2 * n + 1)
+        vis = [i for i in range(2 * n + 1) if i != hm]
+        c.bs(vis[0], vis[1], reflectivity=ctx.real("rb", 0, 1))
+        c.ps(vis[1], ctx.angle("pb"))
+        c.herald(0, hm)
+        return c
     if kind == "cnot":
         c = lw.Circuit(4)
         c.add(lw.qubit.H(), 0)
@@ -166,6 +176,7 @@ def h_state_tomography(ctx, n, kind):
 def harnesses(tier):
     cases = [dict(n=1, kind="empty"), dict(n=1, kind="unitary"), dict(n=2, kind="empty"), dict(n=2, kind="unitary"), dict(n=2, kind="cnot"), dict(n=2, kind="cz_heralded")]
     cases.append(dict(n=3, kind="empty"))
+    cases += [dict(n=1, kind=k) for k in ("direct-herald-first", "direct-herald-middle", "direct-herald-last")] + [dict(n=2, kind="direct-herald-middle")]
     if tier != "quick":
         cases += [dict(n=3, kind="ccz")]
     return [("state-tomography", h_state_tomography, cases, dict(max_seconds=1500)),
